@@ -5,7 +5,7 @@ Open Scope Q_scope.
 
 (* a constructor outcome of the model against what the implementation did: raised ValueError, or the
    fields of the object and its confusion matrices at the given thresholds *)
-Definition fraud_agree (r : res scores) (raised : bool) (pos_exp neg_exp : list Q) (eg ef : Z)
+Definition fraud_agree (r : Res.res scores) (raised : bool) (pos_exp neg_exp : list Q) (eg ef : Z)
     (sc_exp ec_exp : label) (thr : list ext) (cms : list cmz) : bool :=
   match r with
   | ErrValue => raised
@@ -15,9 +15,9 @@ Definition fraud_agree (r : res scores) (raised : bool) (pos_exp neg_exp : list 
             list_eqb cmz_eqb (map (cm s) thr) cms
   end.
 
-Definition res_label_eqb (a b : res label) : bool :=
+Definition res_label_eqb (a b : Res.res label) : bool :=
   match a, b with Ok x, Ok y => label_eqb x y | ErrValue, ErrValue => true | _, _ => false end.
 Definition doc_label_eqb (a b : doc_label) : bool :=
   match a, b with DocPos, DocPos | DocNeg, DocNeg => true | _, _ => false end.
-Definition res_doc_eqb (a b : res doc_label) : bool :=
+Definition res_doc_eqb (a b : Res.res doc_label) : bool :=
   match a, b with Ok x, Ok y => doc_label_eqb x y | ErrValue, ErrValue => true | _, _ => false end.
